@@ -55,7 +55,12 @@ static void runSequences(const Opt &o, Ev &ev) {
 static std::string bodyWalk(Src &s, Ev &ev) {
     int queue = (int) s.range(1, 4);
     std::vector<Op> ops = decodeWalk(s, 200);
-    int mode = s.prob(1, 3) ? (int) s.range(1, 6) : 0;       // what the service-request callback returns / does (status_explore.hpp)
+    // mode 5 (the control callback POPS an error) is implemented but not generated: between queueing an error and raising the
+    // error-available bit the library announces the ESR change, and a callback that empties the queue right there leaves the bit
+    // set on an empty queue unless a second, redundant announcement follows - the pinned tree makes one, a stricter (and
+    // correct) service-request rule does not (benign/C12-b2); nothing in the statement covers it
+    static const int kModes[] = {1, 2, 3, 4, 6};
+    int mode = s.prob(1, 3) ? kModes[s.range(0, 4)] : 0;       // what the service-request callback returns / does (status_explore.hpp)
     Hist h;
     std::string m = runWalk(ops, queue, chk, &h, mode);
     if (mode) ev.label(fmt("walk-control-callback-mode-%d", mode));
